@@ -84,7 +84,12 @@ class Timestamp:
             frac_part_ns = Timestamp._INVALID
         else:
             int_part = int(self.seconds)
-            frac_part_ns = int((self.seconds - int_part) * 1e9)
+            # Round to the nearest nanosecond: truncating loses 1 ns on every unpack()/pack() cycle since
+            # int_part + frac_part_ns * 1e-9 is usually slightly below the exact value.
+            frac_part_ns = int(round((self.seconds - int_part) * 1e9))
+            if frac_part_ns >= 1000000000:
+                int_part += 1
+                frac_part_ns -= 1000000000
 
         if buffer is None:
             buffer = struct.pack(Timestamp._FORMAT, int_part, frac_part_ns)
@@ -207,7 +212,10 @@ class TimestampAdapter(Adapter):
             frac_part_ns = Timestamp._INVALID
         else:
             int_part = int(obj.seconds)
-            frac_part_ns = int((obj.seconds - int_part) * 1e9)
+            frac_part_ns = int(round((obj.seconds - int_part) * 1e9))
+            if frac_part_ns >= 1000000000:
+                int_part += 1
+                frac_part_ns -= 1000000000
         return {'int_part': int_part, 'frac_part_ns': frac_part_ns}
 
 
